@@ -18,6 +18,7 @@ mod c12;
 mod c06;
 mod c07;
 mod c20r;
+mod c20d;
 mod c05r;
 
 use common::Case;
@@ -37,7 +38,7 @@ fn header(prop: &str) -> &'static str {
         "C12" => "From TSG Require Import Model.HashOrder.\n",
         "C06" => "From TSG Require Import Model.Checker.\n",
         "C07" | "C05p" => "From TSG Require Import Model.ParserObs.\n",
-        "C20r" => "From TSG Require Import Model.ErrChainObs.\n",
+        "C20r" | "C20d" => "From TSG Require Import Model.AstDisplayObs.\n",
         "C05r" => "From TSG Require Import Model.LoadErrRender.\n",
         _ => "",
     }
@@ -86,6 +87,7 @@ fn main() {
                 "C15" => streams::c15_gen(&mut rng, n),
                 "C20" => streams::c20_gen(&mut rng, n),
                 "C20r" => c20r::gen(&mut rng, n),
+                "C20d" => c20d::gen(&mut rng, n),
                 "C05r" => c05r::gen(&mut rng, n),
                 "C02" => streams::c02_gen(&mut rng, n),
                 "C08" => streams::c08_gen(&mut rng, n),
@@ -119,6 +121,7 @@ fn main() {
                 "C15" => streams::c15_replay(&j["case"]),
                 "C20" => streams::c20_replay(&j["case"]),
                 "C20r" => c20r::replay(&j["case"]),
+                "C20d" => c20d::replay(&j["case"]),
                 "C05r" => c05r::replay(&j["case"]),
                 "C02" => streams::c02_replay(&j["case"]),
                 "C08" => streams::c08_replay(&j["case"]),
